@@ -205,6 +205,11 @@ def geometry_file_case(obs, rng, spec, tmp, cli_utils):
     text = cliref.dump_geojson(rng, obj)
     variant = pick(rng, ['good.geojson', 'good.json', 'good.geojson', 'unsupported', 'broken-json', 'not-geometry', 'missing', 'directory'])
     stem = os.path.join(tmp, 'g%d' % int(rng.integers(10 ** 6)))
+    if variant.startswith('good') and chance(rng, 0.4):
+        # the same file name again and again (rewritten with another geometry each time): the argument is a path, and
+        # what it denotes is whatever the file holds NOW
+        stem = reused_stem()
+        obs.cls('grammar:geojson-file-path-reused')
     spec['string'] = variant
     if variant.startswith('good'):
         path = stem + variant[4:]
@@ -245,6 +250,11 @@ def geometry_file_case(obs, rng, spec, tmp, cli_utils):
 # =========================================================================================================
 # command line vs library
 # =========================================================================================================
+
+def reused_stem():
+    import tempfile
+    return os.path.join(tempfile.gettempdir(), 'reused-geometry-%d' % os.getpid())
+
 
 class Env:
     """One dataset on disk plus the way the command line is run for it."""
@@ -400,6 +410,9 @@ def op_clip(env):
             arg = text
         else:
             arg = env.path('clip' + pick(rng, ['.geojson', '.json']))
+            if chance(rng, 0.5):
+                arg = reused_stem() + '.geojson'
+                obs.cls('clip:geojson-file-path-reused')
             with open(arg, 'w') as f:
                 f.write(text)
     out_cli, out_lib = env.path('clip-cli.nc'), env.path('clip-lib.nc')
@@ -498,7 +511,7 @@ def op_points(env):
     rows = [rows[i] for i in order]
     lon_name, lat_name = pick(rng, [('lon', 'lat'), ('lon', 'lat'), ('x', 'y'), ('longitude', 'latitude'), ('lat', 'lon')])
     columns = {lon_name: [repr(r[0]) for r in rows], lat_name: [repr(r[1]) for r in rows],
-               'name': ['site%d' % i for i in range(len(rows))], 'val': [repr(round(float(v), 3)) for v in rng.uniform(0, 9, size=len(rows))],
+               'name': [pick(rng, ['site%d', 'reef #%d', 'st. %d; north', 'a b %d']) % i for i in range(len(rows))], 'val': [repr(round(float(v), 3)) for v in rng.uniform(0, 9, size=len(rows))],
                'n': [str(int(v)) for v in rng.integers(0, 99, size=len(rows))]}
     if len(rows) >= 2 and chance(rng, 0.4):
         # blank cells in the non-coordinate columns (a missing site name, a missing measurement): the row still is a point
